@@ -88,6 +88,7 @@ def requirements(tier):
         "config:bsp": 1,
         "config:pck": 1,
         "config:dynamic-frames": 1,
+        "tabulation:across-a-leap-second": 5, "tabulation:route:iter": 10, "tabulation:route:ephem": 5, "tabulation:Moon": 50, "tabulation:Sun": 50,
         "pairs:get_body-propagate": 100, "pairs:get_frame-objects": 100, "instant:kernel-span-first": 1, "instant:kernel-span-last": 1, "history:create_frames-again": 1, "history:get_orbit-result-edited-in-place": 100 if q else 2000,
         "scale:UTC": 10,
         "scale:TDB": 10,
@@ -410,6 +411,19 @@ def run_pairs(ctx, job, idx, rng, st):
                                   f"get_orbit({names[A]}).copy(frame={names[B]}) raised {exc!r}")
     ctx.count("pairs-per-date-evaluated", nz)
 
+    # ---- tabulation routes of a kernel orbit: on UTC dates, across a leap second every other time
+    if idx % 4 == 3:
+        A = rng.choice([b for b in bodies if b in st["parent"]])
+        if rng.random() < 0.5:
+            leap = rng.choice([53736, 54832, 56109, 57204, 57754])  # 2006-01-01, 2009-01-01, 2012-07-01, 2015-07-01, 2017-01-01
+            first_tab = Date(leap - 1, 43200.0, scale="UTC")
+            ctx.count("tabulation:across-a-leap-second")
+        else:
+            first_tab = date
+        if lo + 1 < first_tab.mjd < hi - 4:
+            tabulation_checks(ctx, rng, descr, f"{names[A]} (kernel)", lambda dd, A=A: jpl.get_orbit(names[A], dd), first_tab, 6 * 3600.0 * rng.choice([1, 2]),
+                              rng.randint(5, 8), "C18/jpl-tabulated-state-differs-from-direct-request")
+
     # ---- the propagator used "the other way round" (kernel centre seen from its target: the library then
     #      takes the available segment and reverses it -- the sign = -1 branch of JplPropagator.propagate) ----
     fr = {f.name: f for f in jpl.list_frames()}
@@ -511,6 +525,43 @@ MOON_ANGLE, MOON_DIST = 0.7 * DEG, 5e-3
 MOON_VEL, SUN_VEL = 0.03, 0.005
 
 
+def tabulation_checks(ctx, rng, descr, what, get_state, first, step_s, npts, key):
+    """The tabulation routes -- orbit.iter(start, stop, step), orbit.iter(dates=...), orbit.ephem(...) -- give, date by date,
+    the state a direct request gives (same vector, same instant): differential against the route judged above."""
+    from beyond.dates import timedelta
+
+    dates = [first + timedelta(seconds=k * step_s) for k in range(npts)]
+    try:
+        direct = [get_state(d) for d in dates]
+        o0 = direct[0]
+        routes = {
+            "iter(start, stop, step)": lambda: list(o0.iter(start=dates[0], stop=dates[-1], step=timedelta(seconds=step_s))),
+            "iter(dates=)": lambda: list(o0.iter(dates=list(dates))),
+            "ephem": lambda: list(o0.ephem(start=dates[0], stop=dates[-1], step=timedelta(seconds=step_s))),
+        }
+        name = rng.choice(sorted(routes))
+        pts = routes[name]()
+    except Exception as exc:
+        ctx.violation(key + "-raises", dict(descr, what=what, exc=repr(exc)), f"tabulation of {what} raised {exc!r}")
+        return
+    ctx.count("tabulation:" + what.split(" ")[0])
+    ctx.count("tabulation:route:" + name.split("(")[0])
+    w = dict(descr, what=what, route=name, first=str(first), step_s=step_s, points=npts)
+    if not ctx.expect(len(pts) == npts, key + "-dates", dict(w, got=len(pts)), f"{name} of {what}: {len(pts)} points for {npts} dates"):
+        return
+    for kk, (p, q, d) in enumerate(zip(pts, direct, dates)):
+        a, b = probe.arr(p.copy(frame=q.frame) if str(p.frame) != str(q.frame) else p), probe.arr(q)
+        derr = abs((p.date - d).total_seconds())
+        L, V = float(np.linalg.norm(b[:3])), float(np.linalg.norm(b[3:]))
+        ctx.resid("tabulation:position vs direct request (rel)", float(np.linalg.norm(a[:3] - b[:3])) / max(L, 1.0), 1e-12, key=key,
+                  witness=dict(w, index=kk, date=str(d), tabulated=a.tolist(), direct=b.tolist()),
+                  msg=f"{name} of {what}: point {kk} ({d}) is {np.linalg.norm(a[:3] - b[:3]):.6g} m from the state requested directly for that date")
+        ctx.resid("tabulation:velocity vs direct request (rel)", float(np.linalg.norm(a[3:] - b[3:])) / max(V, 1e-9), 1e-10, key=key,
+                  witness=dict(w, index=kk, date=str(d), tabulated=a.tolist(), direct=b.tolist()),
+                  msg=f"{name} of {what}: velocity of point {kk} ({d}) differs from the direct request by {np.linalg.norm(a[3:] - b[3:]):.6g} m/s")
+        ctx.expect(derr <= 1.5e-6, key + "-dates", dict(w, index=kk, got=str(p.date), wanted=str(d)), f"{name} of {what}: point {kk} dated {p.date}, requested {d}")
+
+
 def run_sunmoon(ctx, job, idx, rng, st):
     from beyond.dates import Date, timedelta
     from beyond.env import solarsystem
@@ -571,6 +622,11 @@ def run_sunmoon(ctx, job, idx, rng, st):
         except Exception as exc:
             ctx.violation(f"C18/{low}-propagate-raises", dict(descr, exc=repr(exc)), f"{body} propagate(+-60 s) raised {exc!r}")
 
+        if idx % 16 == 0:
+            # tabulated at a step finer than the library's differentiation step (1 d Moon, 5 d Sun), 5 points or more
+            step_tab = rng.choice([6 * 3600.0, 12 * 3600.0]) if body == "Moon" else rng.choice([86400.0, 2 * 86400.0, 5 * 86400.0])
+            tabulation_checks(ctx, rng, descr, f"{body} (analytical)", lambda dd, body=body: solarsystem.get_body(body).propagate(dd), date, step_tab,
+                              rng.randint(5, 9), f"C18/{low}-tabulated-state-differs-from-direct-request")
         # the frame built from the body places the body at its origin (solarsystem.get_frame)
         if idx % 4 == 0:
             try:
